@@ -13,6 +13,14 @@ CLAIMED = {
          "ADF11-style tables passed under 'rates'. Concurrent writers and crash atomicity are outside the property.",
     technique="TLA+ state machine + TLC exhaustive edges replayed into the code; TLC trace validation of recorded call sequences",
     design="4.6"),
+ "C15": dict(
+    text="ObserverGroup.tla is a generic state machine of a group (members, per-member attribute values for the attribute under test and a second one, "
+         "names, parents, observe counts) with add / wrong-type add / observers= / scalar, element-wise and wrong-length assignment / names= / direct member "
+         "change / observe. TLC explores every edge to depth 2 (3 in thorough) and the edges are replayed on the real classes once per "
+         "(group class, broadcast attribute) pair found by introspection (111 pairs today, + BolometerCamera membership), comparing the whole projected state.",
+    note="Trusts the harness' valuation table (two valid values per attribute) and raysect's observer setters; attributes without a valuation are listed in the evidence, not checked.",
+    technique="TLA+ generic group state machine, TLC exhaustive edges replayed per (class, attribute) pair",
+    design="4.15"),
 }
 
 NOT_YET = {}
